@@ -703,6 +703,10 @@ class Interp:
 
         if npmodel.native_setattr(self, obj, name, val):
             return
+        if hasattr(obj, "__dict__") and type(obj).__module__.startswith("fverif"):
+            # python-side stand-ins built by the checker (fake regions / elements / materials)
+            setattr(obj, name, val)
+            return
         raise self.undecided("attribute store on %r.%s" % (type(obj).__name__, name))
 
     def call_method(self, obj, name, args, kwargs=None):
